@@ -798,3 +798,93 @@ def c08(tier):
 
 
 CHECKS['C08'] = c08
+
+
+# ------------------------------------------------------------------------- model-driven checks
+import scn
+
+
+def model_and_scenarios(rep, module, cfg_text, what, emit=True, workers=1, timeout=3000):
+    """writes spec/<module>.gen.cfg from cfg_text, runs TLC (invariants + scenario emission), returns scenarios"""
+    cfg = module + '.run%d.cfg' % os.getpid()
+    with open(os.path.join(vlib.SPEC, cfg), 'w') as f:
+        f.write(cfg_text + ('ACTION_CONSTRAINT Emit\n' if emit else ''))
+    try:
+        r = vlib.tlc_model(module, cfg=cfg, workers=workers, timeout=timeout)
+    finally:
+        os.remove(os.path.join(vlib.SPEC, cfg))
+    rep.add_model(r, what)
+    return scn.parse_scenarios(r['out']) if emit else set()
+
+
+HIST_CFG = """SPECIFICATION Spec
+CONSTANTS
+  Alphabet <- AlphaLit
+  Filt <- NoFilt
+  OptR = %s
+  OptU = FALSE
+  DeleteAfter = 60
+  Ticks <- TickSet
+  MaxSteps = %d
+INVARIANT InvFold
+INVARIANT InvExpiry
+INVARIANT InvCount
+INVARIANT InvRange
+PROPERTY Isolation
+VIEW View
+CHECK_DEADLOCK FALSE
+"""
+
+
+def hist_scenarios(rep, tier, prop):
+    """E1 + E2 on the history model; returns command groups for all option sets"""
+    alpha = scn.parse_literal_alphabet('hist')
+    groups = []
+    depth = 3 if tier == 'quick' else 4
+    for R in (False, True):
+        scs = model_and_scenarios(rep, 'MC_hist', HIST_CFG % ('TRUE' if R else 'FALSE', depth),
+                                  'history model, 24-frame alphabet, 2 aircraft, ticks 9/11 s, depth %d, -R %s: InvFold (C11 reference fold), '
+                                  'Isolation (C03), InvExpiry (C12), InvCount (C16), InvRange (C08)' % (depth, R))
+        trie = scn.trie_of(scs)
+        rep.extra.setdefault('model_transitions_replayed', 0)
+        for U in (False, True):
+            opts = (['-U'] if U else []) + (['-R'] if R else [])
+            gs = scn.groups_from_trie(trie, alpha, opts, split_depth=2)
+            groups += gs
+            rep.extra['model_transitions_replayed'] += scn.count_edges(trie)
+    return groups
+
+
+def c11(tier):
+    rep = Report('C11', tier)
+    rng = random.Random(vlib.seed())
+    groups = hist_scenarios(rep, tier, 'C11')
+    # random long interleavings of generated frames for 1..4 aircraft with ticks
+    nh = 8 if tier == 'quick' else 300
+    for h in range(nh):
+        opts = OPTSETS[h % 4]
+        acs = [0x4a0000 + rng.getrandbits(12) for _ in range(1 + h % 4)]
+        g = [reset(opts)]
+        pool = []
+        for a in acs:
+            pool += other_format_frames(a, rng)
+        for _ in range(120):
+            r = rng.random()
+            if r < 0.1:
+                g.append(tick(rng.choice([1000, 5000, 9000, 11000, 30000])))
+            elif r < 0.25 and len(g) > 1 and g[-1]['c'] == 'run':
+                g.append(dict(g[-1]))                       # re-feed the frame just applied
+            else:
+                g.append(run1(rng.choice(pool)))
+        groups.append(g)
+    conform(rep, 'C11', groups, maxlen=4000)
+    rep.rule = ('(i) every transition of the bounded history model (TLC, depth %d, 24-frame alphabet, 2 aircraft, ticks 9 s / 11 s, -R on/off) '
+                'replayed through the real reader under {none,-U} x {-R}, as a prefix-tree walk with save/restore: one reader run per model '
+                'transition, all parameters of the row judged after every step; (ii) %d random histories of 120 steps for 1..4 aircraft with '
+                'ticks and re-fed frames. Non-trivial = applied frame of a constrained format on an existing row; distinct by (line, slot) '
+                '(conservative: the same line in different histories counts once)' % (3 if tier == 'quick' else 4, nh))
+    vlib.nt_floor(rep, 20)
+    return rep
+
+
+CHECKS['C11'] = c11
